@@ -289,6 +289,6 @@ pub fn run(ctx: &mut Ctx) {
     preamble(ctx);
     let t = ctx.tier;
     ctx.run_enumerated::<Names>(enumerate(5), true);
-    ctx.run_part::<Names>(t.pick(50_000, 3_000_000));
+    ctx.run_part::<Names>(t.pick(50_000, 20_000_000));
     cleanup();
 }
